@@ -718,6 +718,14 @@ def submit (s : State) (proposer : Addr) (msgs : List Msg) (initial : Nat) (expe
 def deposit (s : State) (pid : Nat) (who : Addr) (amt : Nat) : Except String State :=
   if amt == 0 then .error "err:coins" else addDeposit s pid who amt
 
+/-- `MsgDeposit` whose coins contain `other` units of a denomination that is not listed in `params.MinDeposit`: after the
+look-up and the status test `validateDepositDenom` rejects it, nothing is written -/
+def depositX (s : State) (pid : Nat) (who : Addr) (fx other : Nat) : Except String State :=
+  if other == 0 then deposit s pid who fx else
+  match findProp s.props pid with
+  | none => .error "err:notfound"
+  | some p => if !(p.status == .deposit || p.status == .voting) then .error "err:inactive" else .error "err:denom"
+
 /-- `MsgCancelProposal` (SDK): charge, refund the rest, delete the proposal -/
 def cancel (s : State) (pid : Nat) (who : Addr) : Except String State :=
   match findProp s.props pid with
@@ -839,6 +847,8 @@ inductive Op where
   | updateCustom (url : Ty) (c : Option Custom)
   | submit (proposer : Addr) (msgs : List Msg) (initial : Nat) (expedited : Bool)
   | deposit (pid : Nat) (who : Addr) (amt : Nat)
+  /-- a deposit that carries `other` units of a non-deposit denomination as well -/
+  | depositX (pid : Nat) (who : Addr) (fx other : Nat)
   | cancel (pid : Nat) (who : Addr)
   | vote (pid : Nat) (voter : Addr) (opts : List (Opt × Nat))
   /-- a tracked account spends coins outside gov (a staking delegation) -/
@@ -861,6 +871,7 @@ def step (s : State) : Op → State × String
     | some c => if c.valid then ({ s with custom := setCustom s.custom url c }, "ok") else (s, "err:params")
   | .submit who msgs initial exp => ofExcept s (submit s who msgs initial exp)
   | .deposit pid who amt => ofExcept s (deposit s pid who amt)
+  | .depositX pid who fx other => ofExcept s (depositX s pid who fx other)
   | .cancel pid who => ofExcept s (cancel s pid who)
   | .vote pid voter opts => ofExcept s (vote s pid voter opts)
   | .spend who amt =>
